@@ -4,7 +4,7 @@
 //@ replace: get_credentials_hash load_ssl_ctx
 //@ pre-unwind: ctx_store_get_ctx.8:$UNW cache_get.0:3 memcmp.0:33 strlen.0:5
 //@ defs: -DXV_LSC_RECORD -DXV_MD_FRESH=$FRESH
-//@ flags: --object-bits 11
+//@ flags: --object-bits 9
 //@ props: C15 C18 C08
 //@ bounded: the cache holds 0..2 entries when the lock is acquired; designated names/values and files of 0..3 bytes; variant stable: the credential files do not change during the call (the 2nd digest repeats the 1st: one pass of the retry loop); variant retry: they change at most so often that the loop runs twice (the 4th digest repeats the 3rd)
 //@ expect: postcondition>=12 canary>=6
